@@ -196,6 +196,32 @@ def _mentions(v, op):
     return False
 
 
+def _double_escape(v):
+    if isinstance(v, StrOp):
+        if v.op == "replace" and len(v.args) == 3:
+            rep = v.args[2]
+            rep_txt = rep if isinstance(rep, str) else render(rep)
+            if "\\" in rep_txt and (_mentions(v.args[0], "repr") or _mentions(v.args[0], "ascii")):
+                return v
+        for a in v.args:
+            if not isinstance(a, (str, int, type(None))):
+                h = _double_escape(a)
+                if h is not None:
+                    return h
+    elif isinstance(v, Str):
+        for x in v.parts:
+            if not isinstance(x, str):
+                h = _double_escape(x)
+                if h is not None:
+                    return h
+    elif isinstance(v, Rep):
+        for x in v.items:
+            h = _double_escape(x)
+            if h is not None:
+                return h
+    return None
+
+
 def rule_r2(ctx):
     rr = RuleResult("C04-R2", "constant kinds: str through the escaper; float/complex not through a bare repr (inf is a name)")
     rr.floor = 2
@@ -215,6 +241,16 @@ def rule_r2(ctx):
             rr.fail("C04-R2|Constant|str|delimiters", f"{fi.where()}: a str constant is not rendered as <quote><escaped text><same quote>: `{render(bad[0].result)[:80]}`", what="str")
         else:
             rr.ok("str", sample={"rule": "C04-R2", "type": "str", "skeleton": render(str_paths[0].result)[:80]})
+    # escaping text that is already escaped
+    for p in paths:
+        hit = _double_escape(p.result)
+        if hit is not None:
+            rr.instances += 1
+            rr.fail(
+                "C04-R2|Constant|double-escape",
+                f"{fi.where()}: `{render(p.result)[:90]}` escapes (inserts a backslash into) the output of repr()/ascii(), which is already escaped: a quote that repr() wrote as \\' becomes \\\\' and ends the literal early (bytes containing both quote characters) [{short_ctx(p, 80)}]",
+                where=fi.where(), what="double-escape",
+            )
     # generic repr path(s)
     other = [p for p in paths if p not in str_paths]
     float_handled = False
